@@ -427,7 +427,24 @@ def opPlacement (req : J) : J :=
                  ⟨PlaceIO.num rj "x", PlaceIO.num rj "y", PlaceIO.num rj "z"⟩ (PlaceIO.num rj "width") (PlaceIO.num rj "height")
                some (J.obj [("name", J.str (SkelIO.str sh "name")),
                             ("corners", J.arr (cs.map (fun c => J.arr [J.ofRat c.x 6, J.ofRat c.y 6, J.ofRat c.z 6])))])
-             | _, _ => none)))]
+             | _, _ =>
+               -- a shade given by vertices: the angles are the ones the implementation derived (they come from acos / atan2); what the
+               -- model checks is the polygon and the position built around them
+               let mshades := match (req.get? "impl").bind (fun i => i.get? "model") with | some m => SkelIO.arr m "shades" | none => []
+               let nm := SkelIO.str sh "name"
+               match sh.get? "verts", mshades.find? (fun m => SkelIO.str m "name" == nm) with
+               | some (J.arr vs), some ms =>
+                 let mt := ((ms.get? "geometry").bind (fun g => g.get? "trig")).getD J.null
+                 let g := PlaceIO.ang src "trig_g"
+                 let a := Place.Ang.add (PlaceIO.ang mt "az") g
+                 let t := PlaceIO.ang mt "t"
+                 let pts : List Vec3 := vs.filterMap (fun p => match jnums p with | [x, y, z] => some ⟨x, y, z⟩ | _ => none)
+                 match pts with
+                 | v0 :: _ =>
+                   some (J.obj [("name", J.str nm),
+                     ("corners", J.arr (pts.map (fun v => let c := Place.vertShadeCorner g a t v0 v; J.arr [J.ofRat c.x 6, J.ofRat c.y 6, J.ofRat c.z 6])))])
+                 | [] => none
+               | _, _ => none)))]
 
 namespace AuxIO
 open Cte.Aux Cte.Bdl
